@@ -165,6 +165,10 @@ func checkC04(p *core.Program, r *core.Report) {
 	r.Rule("R8", "null is a nil XValue: every method invoked on a value of interface type types.XValue in the evaluation packages is on a value shown non-nil (false edge of IsNil / == nil, or produced non-nil by construction) or listed")
 	r.Require("xvalue_method_invokes", xNilRule(p, r, fns, "R8", c04NilAllowed), 2)
 
+	// ---------- R9 the object is its own "no default" sentinel
+	r.Rule("R9", "an XObject without a default returns itself from Default(): every call of XObject.Default() (outside hasDefault) is controlled by the true edge of hasDefault() on the same object, or listed — an unguarded conversion `ToX(env, obj.Default())` recurses on the same object until the stack overflows")
+	c04R9(p, r)
+
 	// ---------- R5 constant-offset string slicing
 	r.Rule("R5", "every s[k:], s[:k], s[k] with a constant offset on a string/[]byte in the evaluation packages is guarded by a length / non-empty / prefix test on the same value or listed")
 	r.Count("const_offset_string_sites", c04R5(p, r, fns, "R5", c04SliceAllowed))
@@ -1072,4 +1076,52 @@ func varIndexRule(p *core.Program, r *core.Report, fns []*ssa.Function, rule str
 		}
 	}
 	return n
+}
+
+// ---------------------------------------------------------------------------------------------- R9
+
+var c04DefaultAllowed = map[string]string{
+	"(*excellent/types.XObject).Equals/Default":   "under hasDefault() of either object; Equals is only used by tests, and the recursion descends into x's default (a different object) or compares two different types",
+	"(*excellent/types.XObject).Equals/Default#2": "see the first: other.Default() is compared, not converted",
+}
+
+func c04R9(p *core.Program, r *core.Report) {
+	def := p.Method("excellent/types", "XObject", "Default")
+	has := p.Method("excellent/types", "XObject", "hasDefault")
+	if def == nil || has == nil {
+		r.Errorf("XObject.Default / hasDefault not found")
+		return
+	}
+	n := 0
+	per := map[string]int{}
+	for _, cs := range p.CallsTo(def) {
+		if p.IsTestFile(cs.Pos()) || cs.Caller == has || cs.Common().IsInvoke() {
+			continue
+		}
+		n++
+		k := core.FuncName(rootFn(cs.Caller)) + "/Default"
+		per[k]++
+		key := k
+		if per[k] > 1 {
+			key = fmt.Sprintf("%s#%d", k, per[k])
+		}
+		recv := cs.Common().Args[0]
+		guarded := false
+		for _, ce := range core.ControllingConds(cs.Instr.Block()) {
+			c, ok := ce.Cond.(*ssa.Call)
+			if ok && ce.Taken && c.Call.StaticCallee() == has && (c.Call.Args[0] == recv || canon(c.Call.Args[0]) == canon(recv)) {
+				guarded = true
+			}
+		}
+		if guarded {
+			r.OK("R9", key, p.Pos(cs.Pos()), "under hasDefault() of the same object")
+			continue
+		}
+		if reason, ok := c04DefaultAllowed[key]; ok {
+			r.OK("R9", key, p.Pos(cs.Pos()), "listed: "+reason)
+			continue
+		}
+		r.Bad("R9", key, p.Pos(cs.Pos()), "Default() of "+canonShort(recv)+" is used without a hasDefault() test on it: for an object without a default this is the object itself, and converting or rendering it again recurses without end (fatal stack overflow, not an error value)")
+	}
+	r.Require("xobject_default_calls", n, 8)
 }
